@@ -198,10 +198,8 @@ FK == {"int", "bool", "float", "complex", "obj", "builtin"}
 IsNum(x) == T[x].k \in {"int", "bool", "float", "complex"}
 Lt(a, b, fl) ==
   LET X == T[a]  Y == T[b] IN
-  CASE X.k \in {"int", "bool", "float"} -> IF IsNum(b) THEN X.r > Y.r /\ X.s >= Y.s ELSE TRUE
-    [] X.k = "complex" -> Y.k = "complex" /\ X.r > Y.r
-    [] X.k \in {"obj", "builtin"} -> FALSE
-    [] X.k = "buf" -> IF Y.k = "buf" THEN FALSE ELSE fl[Y.k]
+  CASE IsNum(a) -> IF IsNum(b) THEN X.r > Y.r \/ (X.r = Y.r /\ X.s > Y.s) ELSE TRUE
+    [] OTHER -> FALSE
 
 RECURSIVE DescLen(_, _, _), AscLen(_, _, _), BSearch(_, _, _, _, _), InsFrom(_, _, _)
 DescLen(s, n, fl) == IF n < Len(s) /\ Lt(s[n + 1], s[n], fl) THEN DescLen(s, n + 1, fl) ELSE n
@@ -232,7 +230,9 @@ SplitFrom(so, i, acc) ==
                           ELSE IF py = "object" THEN [acc EXCEPT !.seen = @ \cup {py}, !.obj = TRUE]
                           ELSE [acc EXCEPT !.seen = @ \cup {py}, !.normal = Append(@, m)])
          ELSE [acc EXCEPT !.bufs = Append(@, m)])
-Split(F, fl) == SplitFrom(PySort(F, fl), 1, [seen |-> {}, normal |-> <<>>, bufs |-> <<>>, obj |-> FALSE])
+BoolFirst(s) == SelectSeq(s, LAMBDA m : T[m].py = "bool") \o SelectSeq(s, LAMBDA m : T[m].py # "bool")
+Split(F, fl) == LET sp == SplitFrom(PySort(F, fl), 1, [seen |-> {}, normal |-> <<>>, bufs |-> <<>>, obj |-> FALSE])
+                IN [sp EXCEPT !.normal = BoolFirst(@)]
 
 (* the generated type mapper *)
 KindCat(dt) == IF dt \in {"i4", "i8", "u4", "u1"} THEN "iu" ELSE "f"
